@@ -266,21 +266,45 @@ BOUNDARY = [
 
 # ------------------------------------------------------------------ running
 
+HANG_RC = 124     # harness/c14_data.c: the watchdog of a case fired; its line ends in ` HANG@case`
+MAX_HANGS = 6     # per chunk: each one costs C14_HANG_CPU seconds
+
+
+def is_hang(line):
+    return line.startswith('HANG')
+
+
+def hang_line(line):
+    """the harness' partial line of a case that did not terminate -> the outcome `HANG ...` (no oracle part)"""
+    return 'HANG (the implementation did not terminate) after: ' + line.replace(' HANG@case', '').strip()
+
+
 def run_chunk(exe, lines, env=None):
-    """run all lines; if the process dies, mark the line it died on and carry on after it"""
+    """run all lines; if the process dies, mark the line it died on and carry on after it.  The harness stops a case
+    that does not terminate itself (CPU-time watchdog, exit code 124, line closed with HANG@case): that is the case's
+    outcome, the run goes on with a fresh process after it; the subprocess timeout is only the backstop."""
     out = []
     start = 0
     crashes = 0
+    hangs = 0
     while start < len(lines):
-        rc, o, e = vlib.run_lines(exe, lines[start:], timeout=3000, env=env)
+        rc, o, e = vlib.run_lines(exe, lines[start:], timeout=1200, env=env)
         if o and o[-1] == '' and len(o) > len(lines) - start:
             o = o[:-1]
         if rc == 0 and len(o) == len(lines) - start:
             out += o
             break
+        if rc == HANG_RC and o and ' HANG@case' in o[-1] and len(o) <= len(lines) - start:
+            out += o[:-1] + [hang_line(o[-1])]
+            start += len(o)
+            hangs += 1
+            if hangs >= MAX_HANGS:
+                out += ['HANG (not run: %d cases of this chunk did not terminate)' % hangs] * (len(lines) - start)
+                break
+            continue
         k = min(len(o), len(lines) - start - 1)
         out += o[:k]
-        out.append('CRASH rc=%d %s' % (rc, e[-200:].replace('\n', ' ')))
+        out.append('%s rc=%d %s' % ('HANG (chunk timeout)' if '[timeout]' in e else 'CRASH', rc, e[-200:].replace('\n', ' ')))
         start += k + 1
         crashes += 1
         if crashes > 20:
@@ -303,7 +327,9 @@ def run_parallel(exe, lines, jobs=JOBS, env=None):
 
 
 def impl_line(impl, c, env=None):
-    rc, o, e = vlib.run_lines(impl, [c], timeout=120, env=env)
+    rc, o, e = vlib.run_lines(impl, [c], timeout=120, env=dict(env or {}, C14_HANG_CPU='5'))
+    if rc == HANG_RC and len(o) == 1 and ' HANG@case' in o[0]:
+        return hang_line(o[0])
     if rc != 0 or len(o) != 1:
         return 'CRASH rc=%d %s' % (rc, ((o[0] if o else '') + ' ' + e[-300:]).strip())
     return o[0]
@@ -370,6 +396,8 @@ def correspond(impl, model, cases, env=None):
     o2 = model_lines(model, cases, o1)
     bad = []
     for c, a, b in zip(cases, o1, o2):
+        if '(not run' in a:     # after too many hangs / crashes in the chunk: says nothing about this case
+            continue
         if not same(split_impl(a)[1], b):
             bad.append((c, a, b))
     return bad, o1
